@@ -96,7 +96,7 @@ def bucket_of(stage, loc, msg):
     return f"{stage}:{key}:{re.sub(r'[0-9]+', 'N', msg)[:30]}"
 
 
-def roundtrip(text, quote, case, public=False, d1=None):
+def roundtrip(text, quote, case, public=False, d1=None, opts=None):
     W = env.Workers.get()
     out = []
     if d1 is None:
@@ -108,9 +108,9 @@ def roundtrip(text, quote, case, public=False, d1=None):
         if public:
             import mappyfile
 
-            t2 = mappyfile.dumps(d1, quote=quote)
+            t2 = mappyfile.dumps(d1, **dict(opts or {}, quote=quote))
         else:
-            t2 = W.dumps(d1, quote=quote)
+            t2 = W.dumps(d1, **dict(opts or {}, quote=quote))
     except Exception as e:
         return [Discrepancy(f"dumps:{type(e).__name__}:{str(e)[:30]}", f"dumps raised {type(e).__name__}: {str(e)[:200]}", case)]
     try:
@@ -172,7 +172,15 @@ def search(acc: Acc, tier, shard, nshards):
         for k, v in st_.items():
             if k.startswith("excluded:"):
                 acc.excl(k[9:], v)
-        return roundtrip(text, quote, {"doc": doc, "text": text, "quote": quote}, public=ch.chance(1, 50))
+        # "written with dumps": under the layout options too (the key order is part of C01, so the one option that
+        # reorders keys by design, separate_complex_types, stays off; C06 owns the comparison between option sets)
+        opts = None
+        if ch.chance(1, 3):
+            from .. import options
+
+            opts = options.draw(ch, quotes=[quote], separate=False)
+            acc.cls("with_layout_options")
+        return roundtrip(text, quote, {"doc": doc, "text": text, "quote": quote, "opts": opts}, public=ch.chance(1, 50), opts=opts)
 
     hyp_search(acc, ID, "documents", shard, n, body, tier)
 
@@ -184,4 +192,4 @@ def replay(case):
         text = corpus.read(os.path.join(env.REPO, case["file"]))
     else:
         text = case["text"]
-    return roundtrip(text, case.get("quote", '"'), case)
+    return roundtrip(text, case.get("quote", '"'), case, opts=case.get("opts"))
